@@ -384,7 +384,7 @@ def rd_md_dataframe(w, ev, slot, t, ref):
         return 'skip:ragged'
     lens = {}
     for k in keys:
-        ls = {len(d[k]) if isinstance(d[k], list) else -1 for d in md}
+        ls = {len(d[k]) if isinstance(d[k], (list, tuple)) else -1 for d in md}
         if len(ls) != 1:
             return 'skip:jagged'
         lens[k] = ls.pop()
